@@ -565,8 +565,9 @@ def write_evidence(agg, tier, seed, wall, nviol, nknown, selftest):
               wall_s=round(wall, 2), violations=nviol)
     edir = os.environ.get('VERIF_EVIDENCE_DIR') or os.path.join(VERIF, 'evidence')
     os.makedirs(edir, exist_ok=True)
-    with open(os.path.join(edir, PROP + '.json'), 'w') as f:
-        json.dump(ev, f, indent=1, sort_keys=True, default=str)
+    for name in (PROP + '.json', '%s.%s.json' % (PROP, tier)):
+        with open(os.path.join(edir, name), 'w') as f:
+            json.dump(ev, f, indent=1, sort_keys=True, default=str)
     return ev
 
 
